@@ -30,21 +30,25 @@ WINDOW_MS = 150
 PREAMBLE = "From PV Require Import Pause.Model Pause.ReloadModel.\nFrom Coq Require Import List. Import ListNotations."
 
 
-def toml(removed=(), sizes=None):
-    """removed: pool kinds left out of the file; sizes: {kind: pool_size} (a changed size re-creates that pool)"""
+def toml(removed=(), sizes=None, mins=None, validate=False):
+    """removed: pool kinds left out of the file; sizes: {kind: pool_size} (a changed size re-creates that pool);
+    mins: {kind: min_pool_size}; validate: general.validate_config (pools are then built by connecting)"""
     sizes = sizes or {}
+    mins = mins or {}
 
-    def pool(b, mode, umode, size):
+    def pool(b, mode, umode, size, mn):
         u = {"username": "u", "password": "pw", "pool_size": size}
         if umode:
             u["pool_mode"] = umode
+        if mn:
+            u["min_pool_size"] = mn
         return {"opts": {"pool_mode": mode}, "users": [u], "shards": [{"database": "d", "servers": [[b, "primary"]]}]}
     spec = {"txn": ("transaction", None), "spool": ("session", None), "suser": ("transaction", "session")}
     pools = {}
     for k, (pname, b) in POOLS.items():
         if k not in removed:
-            pools[pname] = pool(b, spec[k][0], spec[k][1], sizes.get(k, 6))
-    return WL.make_toml(pools=pools)
+            pools[pname] = pool(b, spec[k][0], spec[k][1], sizes.get(k, 6), mins.get(k))
+    return WL.make_toml(general={"validate_config": True} if validate else None, pools=pools)
 
 
 def session_mode(kind):
@@ -54,9 +58,11 @@ def session_mode(kind):
 class Script:
     """Wire steps + per-pool model schedule + statement records, built side by side."""
 
-    def __init__(self, name, mutant=None):
+    def __init__(self, name, mutant=None, validate=False):
         self.name = name
         self.mutant = mutant
+        self.validate = validate
+        self.adm = "adm"
         self.steps = [{"op": "connect", "c": "adm", "params": {"user": "admin", "database": "pgcat"}, "password": "adminpw"}]
         self.cl = {}                      # c -> {kind, server, txn, held (stmt index or None), n}
         self.paused = {k: False for k in POOLS}          # what the script believes (PAUSE acknowledged .. RESUME sent)
@@ -91,9 +97,9 @@ class Script:
         sizes = dict(self.sizes if sizes is None else sizes)
         label = "adm%d" % self.nadm
         self.nadm += 1
-        self.steps += [{"op": "write_config", "toml": toml(removed, sizes)},
-                       {"op": "send", "c": "adm", "msgs": [{"t": "Q", "sql": "RELOAD"}]},
-                       {"op": "recv", "c": "adm", "until": "Z", "timeout_ms": 3000, "label": label}]
+        self.steps += [{"op": "write_config", "toml": toml(removed, sizes, validate=self.validate)},
+                       {"op": "send", "c": self.adm, "msgs": [{"t": "Q", "sql": "RELOAD"}]},
+                       {"op": "recv", "c": self.adm, "until": "Z", "timeout_ms": 3000, "label": label}]
         self.admin.append({"label": label, "sql": "RELOAD", "verb": "RELOAD", "kinds": []})
         for k in POOLS:
             if k in removed and k not in self.removed:
@@ -119,6 +125,15 @@ class Script:
         assert st["held"] is None
         st["n"] += 1
         tag = "%s_%d" % (c, st["n"])
+        if what == "custom":
+            # answered by pgcat itself (handle_custom_protocol), before the gate: no checkout, no wait
+            sql = ["SET SERVER ROLE TO 'primary'", "SHOW SERVER ROLE", "SET SHARD TO '0'", "SHOW SHARD"][st["n"] % 4]
+            rec = {"tag": tag, "c": c, "kind": kind, "what": what, "needs_checkout": False, "paused_at_send": self.paused[kind],
+                   "expect_held": False, "pos": None, "pos_after": None, "released_by": None, "nopool": False, "custom": True}
+            self.steps.append({"op": "send", "c": c, "msgs": [{"t": "Q", "sql": sql}]})
+            self.steps.append({"op": "recv", "c": c, "until": "Z", "timeout_ms": 3000, "label": tag + ":window"})
+            self.stmts.append(rec)
+            return rec
         needs = not st["server"]
         sql = {"plain": "SELECT '%s'" % tag, "ext": "SELECT '%s'" % tag, "begin": "BEGIN /* %s */" % tag,
                "in": "SELECT '%s'" % tag, "commit": "COMMIT /* %s */" % tag}[what]
@@ -176,8 +191,8 @@ class Script:
         label = "adm%d" % self.nadm
         self.nadm += 1
         kinds = [k for k in POOLS if k not in self.removed] if kind is None else [kind]
-        self.steps += [{"op": "send", "c": "adm", "msgs": [{"t": "Q", "sql": send_sql or sql}]},
-                       {"op": "recv", "c": "adm", "until": "Z", "timeout_ms": 3000, "label": label}]
+        self.steps += [{"op": "send", "c": self.adm, "msgs": [{"t": "Q", "sql": send_sql or sql}]},
+                       {"op": "recv", "c": self.adm, "until": "Z", "timeout_ms": 3000, "label": label}]
         self.admin.append({"label": label, "sql": sql, "verb": verb, "kinds": kinds})
         for k in kinds:
             if verb == "PAUSE":
@@ -193,6 +208,92 @@ class Script:
                     self.steps.append({"op": "recv", "c": c, "until": "Z", "timeout_ms": 3000, "label": rec["tag"] + ":after"})
                     st["held"] = None
                     self._after(c, rec)
+                    for qi in st.pop("queue", []):
+                        # the statements queued behind it: each a new transaction, each a new gate passage, now unpaused
+                        q = self.stmts[qi]
+                        mi = self._mi(c)
+                        self._ev(st["kind"], "CReg %d" % mi); self._ev(st["kind"], "CLoad %d" % mi)
+                        q["pos_after"] = self._ev(st["kind"], "CDecide %d" % mi)
+                        q["released_by"] = label
+                        self.steps.append({"op": "recv", "c": c, "until": "Z", "timeout_ms": 3000, "label": q["tag"] + ":after"})
+                        self._ev(st["kind"], "CDone %d" % mi)
+
+    def pipeline(self, c, n, ext, scope, send_sql=None):
+        """Client c (no server, pool not paused) writes n statements in ONE TCP write; the first one runs on the
+        backend until the scenario opens its gate; PAUSE (scope: None = all pools, else c's pool) is acknowledged
+        while it runs; then the gate is opened.  Transaction mode: the first finishes, every FURTHER statement is
+        a new transaction = a new gate passage, held until RESUME.  Session mode: the client keeps its server."""
+        st = self.cl[c]
+        kind = st["kind"]
+        assert not st["server"] and not self.paused[kind] and st["held"] is None
+        m = self._mi(c)
+        gate = "g_%s_%d" % (c, st["n"] + 1)
+        msgs, recs = [], []
+        for j in range(n):
+            st["n"] += 1
+            tag = "%s_%d" % (c, st["n"])
+            sql = "SELECT '%s'%s" % (tag, " /*mock: gate=%s*/" % gate if j == 0 else "")
+            if ext:
+                msgs += [{"t": "P", "name": "", "sql": sql, "types": []}, {"t": "B", "portal": "", "name": "", "fmts": [], "params": [], "rfmts": []},
+                         {"t": "E", "portal": "", "max": 0}, {"t": "S"}]
+            else:
+                msgs.append({"t": "Q", "sql": sql})
+            recs.append({"tag": tag, "c": c, "kind": kind, "what": "ext" if ext else "plain", "needs_checkout": j == 0 or not session_mode(kind),
+                         "paused_at_send": j > 0, "expect_held": j > 0 and not session_mode(kind), "pos": None, "pos_after": None,
+                         "released_by": None, "nopool": False, "pipelined": j})
+        busy = sum(1 for x in self.cl.values() if x["server"]) + 1
+        self.steps += [{"op": "send", "c": c, "msgs": msgs}, {"op": "wait_inuse", "n": busy, "timeout_ms": 3000}, {"op": "sleep", "ms": 40}]
+        gated = not (self.mutant == "session_arrival_not_gated" and session_mode(kind))
+        if gated:
+            self._ev(kind, "CReg %d" % m); self._ev(kind, "CLoad %d" % m)
+            recs[0]["pos"] = self._ev(kind, "CDecide %d" % m)
+        self.admin_cmd("PAUSE", scope, send_sql=send_sql)
+        if send_sql:
+            self.admin[-1]["sql"] = send_sql
+        self.steps.append({"op": "backend", "b": POOLS[kind][1], "open_gate": gate})
+        self.steps.append({"op": "recv", "c": c, "until": "Z", "timeout_ms": 3000, "label": recs[0]["tag"] + ":window"})
+        self.stmts.append(recs[0])
+        if session_mode(kind):
+            st["server"] = True
+            for r in recs[1:]:
+                self.steps.append({"op": "recv", "c": c, "until": "Z", "timeout_ms": 3000, "label": r["tag"] + ":window"})
+                self.stmts.append(r)
+            return
+        self._ev(kind, "CDone %d" % m)
+        # the second statement is the next transaction: a new gate passage, while paused
+        if self.mutant != "pipelined_keeps_server":
+            self._ev(kind, "CReg %d" % m); self._ev(kind, "CLoad %d" % m)
+            recs[1]["pos"] = self._ev(kind, "CDecide %d" % m)
+        self.steps.append({"op": "recv", "c": c, "until": "Z", "timeout_ms": WINDOW_MS, "label": recs[1]["tag"] + ":window"})
+        st["held"] = len(self.stmts)
+        self.stmts.append(recs[1])
+        st["queue"] = []
+        for r in recs[2:]:
+            r["queued"] = True                # not started before the one in front of it is done
+            st["queue"].append(len(self.stmts))
+            self.stmts.append(r)
+
+    def refused_reload(self, drop, fail, really=True):
+        """A RELOAD that cannot be applied: the new file drops pool `drop` and changes pool `fail` (min_pool_size 1,
+        validate_config = true) whose backend refuses connections, so building it fails and the whole reload is refused:
+        POOLS, pause flags and waiters must be exactly as before."""
+        assert self.validate
+        label = "adm%d" % self.nadm
+        self.nadm += 1
+        sizes = dict(self.sizes); sizes[fail] = 5
+        self.steps += [{"op": "backend", "b": POOLS[fail][1], "mode": "refuse" if really else "normal"},
+                       {"op": "write_config", "toml": toml(set(self.removed) | {drop}, sizes, mins={fail: 1}, validate=True)},
+                       {"op": "send", "c": self.adm, "msgs": [{"t": "Q", "sql": "RELOAD"}]},
+                       {"op": "recv", "c": self.adm, "until": "ZE", "timeout_ms": 3000, "label": label}]
+        self.admin.append({"label": label, "sql": "RELOAD", "verb": "RELOAD_REFUSED", "kinds": []})
+        for c, st in self.cl.items():
+            if st["held"] is not None and st["held"] >= 0:
+                self.still_held_window(c)
+        # the admin session ends with the failed command; go on with a new one, on a healthy backend and the old file
+        self.adm = "adm_%d" % self.nadm
+        self.steps += [{"op": "backend", "b": POOLS[fail][1], "mode": "normal"},
+                       {"op": "write_config", "toml": toml(self.removed, self.sizes, validate=True)},
+                       {"op": "connect", "c": self.adm, "params": {"user": "admin", "database": "pgcat"}, "password": "adminpw"}]
 
     def still_held_window(self, c):
         """observe again that a held client is still held (e.g. after a RESUME of another pool)"""
@@ -200,7 +301,7 @@ class Script:
         self.steps.append({"op": "recv", "c": c, "until": "Z", "timeout_ms": WINDOW_MS, "label": rec["tag"] + ":window2"})
 
     def scenario(self):
-        return {"backends": [{"name": b} for _, b in POOLS.values()], "toml": toml(), "steps": self.steps}
+        return {"backends": [{"name": b} for _, b in POOLS.values()], "toml": toml(validate=self.validate), "steps": self.steps}
 
     def meta(self):
         return {"name": self.name, "stmts": self.stmts, "admin": self.admin, "model": self.model, "nclients": {k: len(v) for k, v in self.idx.items()}}
@@ -275,6 +376,24 @@ def build_all(rng, nrandom, mutant=None):
         s.stmt("c0", "plain"); s.stmt("c1", "plain"); s.admin_cmd("RESUME", None)
         s = S("paused pool removed while a session waits: the session is released at once [%s]" % kind)
         s.connect("c0", kind); s.admin_cmd("PAUSE", kind); s.stmt("c0", "plain"); s.reload(removed={kind})
+    for kind in POOLS:
+        o = other(kind)
+        for ext in (False, True):
+            for scope in (None, kind):
+                s = S("pipelined: %d %s in one TCP write, PAUSE %s acknowledged while the first runs [%s]"
+                      % (3 if not ext else 2, "extended batches" if ext else "simple queries", "(all)" if scope is None else "db,user", kind))
+                s.connect("c0", kind); s.connect("c1", kind)
+                s.pipeline("c0", 2 if ext else 3, ext, scope)
+                s.stmt("c1", "custom"); s.stmt("c1", "plain")
+                s.admin_cmd("RESUME", scope); s.stmt("c0", "plain")
+        s = S("custom commands are answered at once while the pool is paused, the next statement is held [%s]" % kind)
+        s.connect("c0", kind); s.connect("c1", kind); s.stmt("c1", "begin"); s.admin_cmd("PAUSE", kind)
+        s.stmt("c0", "custom"); s.stmt("c0", "custom"); s.stmt("c1", "custom"); s.stmt("c0", "custom"); s.stmt("c0", "plain"); s.stmt("c1", "commit")
+        s.admin_cmd("RESUME", kind)
+        s = Script("a RELOAD that is refused (it would drop the paused pool, another pool cannot be built) changes nothing: held clients stay held until RESUME [%s]" % kind, mutant, validate=True)
+        out.append(s)
+        s.connect("c0", kind); s.connect("c1", kind); s.admin_cmd("PAUSE", kind); s.stmt("c0", "plain")
+        s.refused_reload(drop=kind, fail=o); s.stmt("c1", "ext"); s.admin_cmd("RESUME", kind); s.stmt("c0", "plain")
     for i in range(nrandom):
         out.append(random_script(rng, i, mutant))
     return out
@@ -328,7 +447,7 @@ def observe(meta, res):
     prev_scripted = -1
     for e in ev:
         scripted = e.get("ev") in ("sent", "recv", "startup_done", "startup_sent") and not str(e.get("who", "")).startswith("b")
-        if e.get("who") != "adm":
+        if not str(e.get("who", "")).startswith("adm"):
             if scripted:
                 prev_scripted = e["seq"]
             continue
@@ -363,6 +482,10 @@ def monitor(meta, res):
     if res.get("harness_error"):
         return ["harness: %s" % res["harness_error"]], obs, adm
     for a in meta["admin"]:
+        if a["verb"] == "RELOAD_REFUSED":
+            if "RELOAD" in adm[a["label"]]["reply"]:
+                bad.append("harness: the RELOAD that was meant to be refused was applied")
+            continue
         if adm[a["label"]]["ack"] is None or a["verb"] not in " ".join(adm[a["label"]]["reply"]):
             bad.append("harness: admin `%s` was not acknowledged: %s" % (a["sql"], adm[a["label"]]["reply"]))
     for s, o in zip(meta["stmts"], obs):
@@ -371,6 +494,11 @@ def monitor(meta, res):
                 bad.append("(w-iv) %s: the session's pool %s is no longer configured, yet its statement reached backend %s" % (s["tag"], POOLS[s["kind"]][0], o["backend"]))
             elif not (o["error"] and "No pool configured" in o["error"]):
                 bad.append("(w-iv) %s: the session's pool %s is no longer configured: it must be told so, not held (window %s, error %s)" % (s["tag"], POOLS[s["kind"]][0], o["window"], o["error"]))
+            continue
+        if s.get("custom"):
+            if o["backend_seq"] is not None or not o["answered_in_window"]:
+                bad.append("(w-v) %s: a custom command (%s) is answered by pgcat itself at once, paused or not (window %s, backend %s)"
+                           % (s["tag"], "pool paused" if s["paused_at_send"] else "pool not paused", o["window"], o["backend"]))
             continue
         if s["needs_checkout"] and s["paused_at_send"]:
             rel = adm.get(s["released_by"]) if s["released_by"] else None
@@ -567,6 +695,40 @@ def selftest(run, wire, scripts, results):
     if flagged != len(muts):
         ok = False
         run.broken.append("wire self-test (b): a session-mode arrival served while the script's pool was 'paused' was not flagged (%d/%d)" % (flagged, len(muts)))
+    # (c) the round-4 families: each must be able to fail
+    muts2, wants = [], []
+    s = Script("self-test: pipelined statements after a PAUSE that went to another pool")
+    s.connect("c0", "txn"); s.pipeline("c0", 3, False, "txn", send_sql="PAUSE ps,u"); s.admin_cmd("RESUME", None)
+    muts2.append(s); wants.append("(w-i)")
+    s = Script("self-test: a statement that needs a server passed off as a custom command while paused")
+    s.connect("c0", "txn"); s.admin_cmd("PAUSE", "txn"); s.stmt("c0", "custom")
+    s.steps[-2]["msgs"][0]["sql"] = "SELECT 'not_a_command'"; s.steps[-1]["timeout_ms"] = WINDOW_MS
+    s.admin_cmd("RESUME", "txn")
+    muts2.append(s); wants.append("(w-v)")
+    s = Script("self-test: the reload that should be refused is applied (it drops and resumes the paused pool)", validate=True)
+    s.connect("c0", "txn"); s.admin_cmd("PAUSE", "txn"); s.stmt("c0", "plain"); s.refused_reload(drop="txn", fail="spool", really=False)
+    for st in s.steps:
+        if str(st.get("label", "")).endswith(":after"):
+            st["timeout_ms"] = 300
+    muts2.append(s); wants.append("(w-i)")
+    res2 = WL.run_scenarios(wire, [s.scenario() for s in muts2])
+    flagged2 = 0
+    for s, r, wnt in zip(muts2, res2, wants):
+        bad, _, _ = monitor(s.meta(), r)
+        if any(b.startswith(wnt) for b in bad):
+            flagged2 += 1
+        else:
+            ok = False
+            run.broken.append("wire self-test (c): %s was not flagged with %s (monitor: %s)" % (s.name, wnt, bad))
+    # model mutant: a pipelined statement is not a new gate passage ("stays on the same server")
+    twins2 = build_all(random.Random(run.seed * 7919 + 16), 0, mutant="pipelined_keeps_server")
+    pp = [(t, s, r) for t, s, r in zip(twins2, scripts, results) if s.name.startswith("pipelined") and "[txn]" in s.name and not r.get("harness_error")]
+    codes = model_codes([t.meta() for t, _, _ in pp], "c16_wire_pipe")
+    caughtp = sum(1 for (t, s, r), cd in zip(pp, codes) if compare(t.meta(), observe(s.meta(), r)[0], cd, t.idx))
+    if not pp or caughtp != len(pp):
+        ok = False
+        run.broken.append("wire self-test (c): the model mutant 'pipelined statement keeps the server' escaped on %d of %d scenarios" % (len(pp) - caughtp, len(pp)))
+    run.cov["wire_selftest_round4"] = {"harness_mutants": len(muts2), "flagged": flagged2, "pipelining_model_mutant_scenarios": len(pp), "caught": caughtp}
     run.cov["wire_selftest"] = {"model_mutant_scenarios": len(pick), "model_mutant_caught": caught, "stale_lookup_model_scenarios": len(f36), "stale_lookup_model_caught": caught36, "harness_mutant_scenarios": len(muts), "harness_mutant_flagged": flagged, "ok": ok}
     return ok
 
